@@ -45,7 +45,7 @@ pub enum TH<Hd: SizedPayload, El: SizedPayload> {
 }
 
 impl<Hd: SizedPayload, El: SizedPayload> TH<Hd, El> {
-    fn kind(&self) -> TK {
+    pub(crate) fn kind(&self) -> TK {
         match self {
             TH::Thin(_) => TK::Thin,
             TH::Fat(_) => TK::Fat,
@@ -61,13 +61,13 @@ impl<Hd: SizedPayload, El: SizedPayload> TH<Hd, El> {
 }
 
 #[derive(Clone, Debug)]
-struct View {
-    hdr: Peek,
+pub(crate) struct View {
+    pub(crate) hdr: Peek,
     hdr_addr: usize,
     rec_len: usize,
     els: Vec<Peek>,
     slice_addr: usize,
-    count: Option<usize>,
+    pub(crate) count: Option<usize>,
     heap: Option<usize>,
 }
 
@@ -83,7 +83,7 @@ fn view_unch<Hd: SizedPayload, El: SizedPayload>(u: &Unch<Hd, El>) -> View {
     }
 }
 
-fn view<Hd: SizedPayload, El: SizedPayload>(h: &TH<Hd, El>) -> Option<View> {
+pub(crate) fn view<Hd: SizedPayload, El: SizedPayload>(h: &TH<Hd, El>) -> Option<View> {
     Some(match h {
         TH::Thin(t) => {
             if t.header.length > 1 << 20 {
